@@ -141,7 +141,7 @@ def history_cases(ctx, sc, dist, steps=None):
     dist["history_rule"] = ("histories of 2-3 loads of ONE ruleset directory in this process (terminal files re-weighted / values added / removed in "
                             "place with the uuid kept, re-trained under the same name, all_lower toggled, base structure dropped, real edit_rules): after "
                             "every load the group-probability oracle and create_guesses = product of the groups of the files as they are then")
-    for hno in range(1 if steps is not None else ctx.scale(14, 150)):
+    for hno in range(1 if steps is not None else ctx.scale(20, 400)):
         if steps is None:
             hg = impl_next.HistoryGen(ctx.rng, rulesets.gen_ruleset(ctx.rng, max_bases=3, max_len=4), flagsets[ctx.rng.random() < 0.2],
                                       kinds=kinds, flag_choices=flagsets, gen=lambda name: rulesets.gen_ruleset(ctx.rng, max_bases=3, max_len=4, name=name))
